@@ -253,6 +253,8 @@ impl RelocatableContainer for RelocatableString {
         };
 
         unsafe {
+            // zero the first byte to signal an empty string
+            *ptr.as_ptr() = 0;
             self.data_ptr.init(ptr);
         }
         Ok(())
